@@ -30,6 +30,7 @@ type unit struct {
 	recvN   string
 	params  []string
 	boundTo types.Object // local variable a literal is bound to
+	iterOf  *unit         // literal returned as an iterator (iter.Seq): runs where its maker's result is ranged over
 	argCall *ast.CallExpr // literal passed as an argument: the call …
 	argIdx  int           // … and its position
 }
@@ -245,7 +246,16 @@ func (la *LockAnalysis) classifyRoots() {
 					return true
 				})
 			}
-		default: // go, defer, return, store, unknown
+		case "return":
+			// `return func(yield func(T) bool) { … }` from a private function whose every call is
+			// consumed on the spot (range, slices.Collect/AppendSeq/Sorted): the body runs at the call
+			// site, under the locks the maker was called with
+			if u.parent.lit == nil && !u.parent.fi.Obj.Exported() && isIteratorLit(u.pkg.TypesInfo, u.lit) && la.consumedOnTheSpot(u.parent) {
+				u.iterOf = u.parent
+			} else {
+				u.root = true
+			}
+		default: // go, defer, store, unknown
 			u.root = true
 		}
 	}
@@ -422,7 +432,15 @@ func (la *LockAnalysis) solve() {
 			}
 			var ne Facts
 			any := false
-			if u.inherit {
+			if u.iterOf != nil {
+				if u.iterOf.known {
+					ne = Facts{}
+					for _, k := range lockFactsOf(u.iterOf.entry) {
+						ne[k] = true
+					}
+					any = true
+				}
+			} else if u.inherit {
 				p := u.parent
 				if p.known && p.sol != nil {
 					n := p.flow.NodeContaining(u.lit.Pos())
@@ -451,6 +469,11 @@ func (la *LockAnalysis) solve() {
 					for _, k := range lockFactsOf(before) {
 						if t, ok := la.translate(cs, k); ok {
 							tr[t] = true
+							// holding a lock for writing is holding it for reading: a helper called under
+							// Lock at one site and under RLock at another runs under "at least RLock"
+							if strings.HasSuffix(t, ":W") && len(u.calls) > 1 {
+								tr[strings.TrimSuffix(t, ":W")+":R"] = true
+							}
 						}
 					}
 					if !any {
@@ -484,6 +507,54 @@ func (la *LockAnalysis) solve() {
 			la.solveUnit(u)
 		}
 	}
+}
+
+// isIteratorLit: func(yield func(…) bool).
+func isIteratorLit(info *types.Info, lit *ast.FuncLit) bool {
+	sig, ok := info.TypeOf(lit).(*types.Signature)
+	if !ok || sig.Params().Len() != 1 || sig.Results().Len() != 0 {
+		return false
+	}
+	y, ok := sig.Params().At(0).Type().Underlying().(*types.Signature)
+	if !ok || y.Results().Len() != 1 {
+		return false
+	}
+	b, ok := y.Results().At(0).Type().Underlying().(*types.Basic)
+	return ok && b.Kind() == types.Bool
+}
+
+// consumedOnTheSpot: every call of the function is the operand of a range
+// statement or an argument of slices.Collect / AppendSeq / Sorted (and the
+// function is never used as a value).
+func (la *LockAnalysis) consumedOnTheSpot(t *unit) bool {
+	if len(t.calls) == 0 {
+		return false
+	}
+	for _, cs := range t.calls {
+		ok := false
+		ast.Inspect(cs.in.body, func(n ast.Node) bool {
+			switch x := n.(type) {
+			case *ast.RangeStmt:
+				if unparen(x.X) == ast.Expr(cs.call) {
+					ok = true
+				}
+			case *ast.CallExpr:
+				cal := callee(cs.in.pkg.TypesInfo, x)
+				if cal != nil && cal.Pkg() != nil && cal.Pkg().Path() == "slices" {
+					for _, a := range x.Args {
+						if unparen(a) == ast.Expr(cs.call) {
+							ok = true
+						}
+					}
+				}
+			}
+			return !ok
+		})
+		if !ok {
+			return false
+		}
+	}
+	return true
 }
 
 // callbackLocks: a literal handed to a repository function that calls it back
